@@ -22,7 +22,7 @@ RULE = ('case = (device parameter table over all 10 firmware types, protocol gen
 ASSUMPTIONS = ['simulated device implements the firmware param protocol (read/write/misc) as documented',
                'a default-value reply whose first value byte equals ENOENT is ambiguous in the protocol; None or the value '
                'are both accepted for it', 'each (misc command, parameter) pair is outstanding at most once']
-REQUIRED = ['mon.persistent_requests_accepted', 'mon.extended_type_answers_arriving_twice_during_set_up', 'mon.values_read_back_inside_an_update_callback', 'mon.writes_checked', 'mon.refused_checked', 'mon.value_replies', 'mon.callback_invocations',
+REQUIRED = ['mon.sessions_with_the_tables_taken_from_the_cache', 'mon.persistent_requests_accepted', 'mon.extended_type_answers_arriving_twice_during_set_up', 'mon.values_read_back_inside_an_update_callback', 'mon.writes_checked', 'mon.refused_checked', 'mon.value_replies', 'mon.callback_invocations',
             'mon.misc_replies', 'mon.one_outstanding_pairs', 'mon.precedence_pairs', 'mon.notifications',
             'mon.multi_outstanding_misc_cases', 'mon.v1_cases', 'mon.state_queries_answered_enoent',
             'mon.instant_reply_cases_with_statement_level_preemption', 'mon.additional_listeners_checked',
@@ -169,9 +169,12 @@ def run(desc, ctx):
     watch_names = ['%s.%s' % (p['g'], p['n']) for p in dev.params[::2]]
     watch_groups = sorted({p['g'] for p in dev.params[1::3]})
 
+    import tempfile
+    cache_dir = tempfile.mkdtemp(prefix='vf_c04_') if desc['seed'] % 3 == 2 else None
+
     def fn(s):
         dev.now = lambda: s.now
-        cf = Crazyflie()
+        cf = Crazyflie(rw_cache=cache_dir) if cache_dir else Crazyflie()
         done = ds.Event()
         cf.fully_connected.add_callback(lambda u: done.set())
         cf.connection_failed.add_callback(lambda *a: done.set())
@@ -179,6 +182,23 @@ def run(desc, ctx):
         if not done.wait(600.0) or cf.param.is_updated is not True:
             ob['problems'].append('never fully connected')
             return
+        if cache_dir:
+            # the session under test takes its tables from the cache the first one filled (same or new Crazyflie object)
+            s.sleep(0.2)
+            cf.close_link()
+            s.sleep(0.3)
+            if desc['seed'] % 2 == 0:
+                cf = Crazyflie(rw_cache=cache_dir)
+                cf.fully_connected.add_callback(lambda u: done.set())
+                cf.connection_failed.add_callback(lambda *a: done.set())
+            done.clear()
+            n_items = sum(1 for t in spec.tx if (t[2] >> 4) & 0xF == 2 and t[2] & 3 == 0 and t[3] and t[3][0] in (0, 2))
+            cf.open_link(uri)
+            if not done.wait(600.0) or cf.param.is_updated is not True:
+                ob['problems'].append('never fully connected (second session)')
+                return
+            if sum(1 for t in spec.tx if (t[2] >> 4) & 0xF == 2 and t[2] & 3 == 0 and t[3] and t[3][0] in (0, 2)) == n_items:
+                ob['from_cache'] = True
         connecting['on'] = False
         s.sleep(0.2)
         ob['t0_rx'], ob['t0_tx'] = len(spec.rx), len(spec.tx)
@@ -281,9 +301,16 @@ def run(desc, ctx):
         ob['queue_left'] = cf.param.param_updater.request_queue.qsize()
         cf.close_link()
 
-    _, abort, s = harness.sched_case(fn, seed=desc['seed'], policy=desc['sched'], line_p=desc['line_p'],
-                                     horizon=5000.0, max_steps=6_000_000)
+    try:
+        _, abort, s = harness.sched_case(fn, seed=desc['seed'], policy=desc['sched'], line_p=desc['line_p'],
+                                         horizon=5000.0, max_steps=6_000_000)
+    finally:
+        if cache_dir:
+            import shutil
+            shutil.rmtree(cache_dir, ignore_errors=True)
     ctx.evals()
+    if ob.get('from_cache'):
+        ctx.count('mon.sessions_with_the_tables_taken_from_the_cache')
     rp = dict(desc)
 
     def V(mech, detail):
